@@ -146,12 +146,12 @@ def run(ctx):
         f"{FM}.solve": "solution write-back (internal columns) and reset",
         f"{FR}.assign_tensions_to_big_edges": "interface tension = mean of its mesh edges",
         f"{FR}.assign_tensions": "legacy, deprecated; must have no caller",
-    }, minimum=3)
+    }, minimum=3, reset_ok=True)
     callers = repo.callers_of(f"{FR}.assign_tensions")
     ctx.check(not callers, "WHO", f"{FR}.assign_tensions / WHO / legacy writer has no caller", ctx.where(repo.func(f"{FR}.assign_tensions")),
               "0 callers in the package", f"legacy Frame.assign_tensions is called from {callers}")
     ctx.clause("each cell carries its own pressure; only assign_pressures writes it")
-    rules.who(ctx, "pressure", {f"{FR}.assign_pressures": "cell.pressure = pressures[mapping[cid]]"}, minimum=1)
+    rules.who(ctx, "pressure", {f"{FR}.assign_pressures": "cell.pressure = pressures[mapping[cid]]"}, minimum=1, reset_ok=True)
 
     fa = repo.func(f"{FR}.assign_pressures")
     sa = sym.summarize(repo, fa.qualname)
@@ -337,6 +337,7 @@ PINNED = [
     ("multiplier not stripped before re-alignment", _P, "        xres = xres[:-1]\n        xres = self.get_solution_no_discarded(xres)", "        xres = self.get_solution_no_discarded(xres)"),
 ]
 PRESERVING = [
+    ("a reset helper that zeroes tensions elsewhere", _F, "    def get_big_edges(self, use_all: bool = False) -> list:", "    def reset_tensions(self) -> None:\n        for small_edge in self.edges.values():\n            small_edge.tension = 0\n\n    def get_big_edges(self, use_all: bool = False) -> list:"),
     ("write-back without float()", _P, "self.frame.edges[e].tension = float(xres[index])", "self.frame.edges[e].tension = xres[index]"),
     ("reset through edges.values()", _P, "        for big_edge in self.frame.internal_big_edges:\n            for e in big_edge.edges:\n                self.frame.edges[e].tension = 0\n",
      "        for small_edge in self.frame.edges.values():\n            small_edge.tension = 0\n"),
